@@ -203,6 +203,12 @@ func (fs FileServer) serveFile(w http.ResponseWriter, r *http.Request) (int, err
 			continue
 		}
 
+		// a hidden file must not be served under another file's name
+		if fs.IsHidden(encodedFileInfo) {
+			encodedFile.Close()
+			continue
+		}
+
 		// close the encoded file when we're done, and close the
 		// previously-opened file immediately to release the fd
 		defer encodedFile.Close()
